@@ -3,6 +3,7 @@ package main
 import (
 	"strings"
 
+	c "verifharness/c02lib"
 	"verifharness/lib"
 )
 
@@ -35,24 +36,53 @@ func ints(s string) []int64 {
 	return out
 }
 
+func hasPrefix(kind string, ps ...string) bool {
+	for _, p := range ps {
+		if strings.HasPrefix(kind, p) {
+			return true
+		}
+	}
+	return false
+}
+
+func mrecs(s string) []c.Mrec {
+	var in []c.Mrec
+	for _, m := range parseGroups(s) {
+		f := ints(m)
+		in = append(in, c.Mrec{Sec: f[0], Nsec: f[1], Off: f[2], Err: f[3] != 0})
+	}
+	return in
+}
+
 func replay(kind, args string) {
 	g := parseGroups(args)
-	switch kind {
-	case "ftm.dur", "median.dur", "ftm.dur.big", "median.dur.big":
-		durCase(kind, ints(g[0]), ints(g[1]))
-	case "ftm.perm":
-		permCase(ints(g[0]), ints(g[1]))
-	case "ftm.meas", "median.meas", "ftm.meas.big", "median.meas.big", "ftm.meas.far", "median.meas.far":
-		var in []mrec
-		for _, m := range parseGroups(g[0]) {
-			f := ints(m)
-			in = append(in, mrec{f[0], f[1], f[2], f[3] != 0})
+	switch {
+	case kind == "ftm.perm":
+		put2(c.PermLine(ints(g[0]), ints(g[1])))
+	case kind == "ftm.meas.perm" || kind == "ftm.meas.tieorder":
+		// recover the index permutation from the two recorded orders
+		a, b := mrecs(g[0]), mrecs(g[1])
+		used := make([]bool, len(a))
+		perm := make([]int64, len(b))
+		for i, m := range b {
+			for j, x := range a {
+				if !used[j] && x == m {
+					used[j], perm[i] = true, int64(j)
+					break
+				}
+			}
 		}
-		measCase(kind, in, ints(g[1]))
-	case "ftm.midpoint", "ftm.midpoint.beyond":
+		put2(c.MeasPermLine(kind, a, perm))
+	case kind == "ftm.meas.utc":
+		put(c.UTCLine())
+	case hasPrefix(kind, "ftm.dur", "median.dur"):
+		put(c.DurLine(kind, ints(g[0]), ints(g[1])))
+	case hasPrefix(kind, "ftm.meas", "median.meas"):
+		put(c.MeasLine(kind, mrecs(g[0]), ints(g[1])))
+	case hasPrefix(kind, "ftm.midpoint"):
 		f := ints(args)
-		midCase(f[0], f[1])
-	case "ftm.sgninv":
-		sgnInvCase(ints(args)[0])
+		put(c.MidLine(f[0], f[1]))
+	case kind == "ftm.sgninv":
+		put(c.SgnInvLine(ints(args)[0]))
 	}
 }
